@@ -110,7 +110,7 @@ func (p *packageParse) unpack(data []byte) (msgs []*Message, err error) {
 		msgs = append(msgs, msg)
 		if end == len(p.historyData) {
 			// 没有遗留的数据
-			p.historyData = p.historyData[0:0]
+			p.historyData = nil // 不复用底层数组 已经交付的消息还引用着它
 			return msgs, nil
 		}
 		p.historyData = p.historyData[end:]
